@@ -455,6 +455,17 @@ func runORD08(p *Prog, r *RuleRun) {
 				return
 			}
 			c, isC := bo.Y.(*ssa.Const)
+			if cx.Eval(bo.X, f).Tag == "~size" && isC && c.Value != nil && c.Uint64() >= 1<<31-1 && c.Uint64() <= 1<<32-1 {
+				// the upper limit: file offsets are 32 bit in the index frame and in the writer
+				within := (bo.Op == token.GTR || bo.Op == token.GEQ) != truth
+				if bo.Op == token.LSS || bo.Op == token.LEQ {
+					within = truth
+				}
+				if within {
+					f.TS["cap"] = "ok"
+				}
+				return
+			}
 			if cx.Eval(bo.X, f).Tag != "~size" || !isC || c.Int64() != 0 {
 				return
 			}
@@ -522,6 +533,10 @@ func runORD08(p *Prog, r *RuleRun) {
 			pos := posOf(p, ret)
 			if !f.Must["os.OpenFile:ok"] {
 				r.Fail(key, pos, "Create succeeds without os.OpenFile:ok")
+				return
+			}
+			if f.TS["size"] != "zero" && f.TS["cap"] != "ok" {
+				r.Fail(key, pos, "Create succeeds for a non-zero size that was never checked against the 32-bit limit: frame offsets are stored as uint32 (index frame, write offset), so a segment larger than 4 GiB silently wraps them; path: "+strings.Join(f.Trace, " > "))
 				return
 			}
 			if f.TS["size"] != "zero" && !f.Must["fileutil.Preallocate:ok"] {
